@@ -69,6 +69,12 @@ DISJOINT = ("forall(lambda p, j: implies(p is not None, p.dfa_pushes is not self
 class_fields('ParserSyntaxError', message='str', error_leaf='ref:ErrorLeaf')
 LEAF_IS_TOKEN = ['exc.error_leaf is not None', 'exc.error_leaf.value == token.string', 'exc.error_leaf.prefix == token.prefix',
                  'exc.error_leaf.line == token.start_pos[0]', 'exc.error_leaf.column == token.start_pos[1]']
+class_fields('DFAState', arcs='map:str:ref:DFAState')
+class_fields('PythonTokenTypes', name='str')
+NODES_NN = ('forall(lambda k, j: implies(0 <= k and k < len(self.stack) and 0 <= j and j < len(self.stack[k].nodes), '
+            'self.stack[k].nodes[j] is not None), kinds=dict(k="int", j="int"))')
+ARCS_WF = ("forall(lambda d, s: implies(d is not None and s in d.arcs, d.arcs[s] is not None), "
+           "kinds=dict(d='ref:DFAState', s='str'))")
 ROOT_OPEN = 'not self.stack[0].dfa.is_final'      # the start rule is complete only after ENDMARKER, which is the last token
 
 contract('parso.parser.StackNode.__init__', params={'self': 'ref:StackNode', 'dfa': 'ref:DFAState'},
@@ -76,8 +82,8 @@ contract('parso.parser.StackNode.__init__', params={'self': 'ref:StackNode', 'df
          modifies=['self.dfa', 'self.nodes'], props=['C02'])
 
 contract('parso.parser.BaseParser._pop', params={'self': 'ref:BaseParser'},
-         requires=['self.stack is not None', 'len(self.stack) >= 2', STACK_WF],
-         ensures=['len(self.stack) == old(len(self.stack)) - 1',
+         requires=['self.stack is not None', 'len(self.stack) >= 2', STACK_WF, NODES_NN],
+         ensures=[NODES_NN, 'len(self.stack) == old(len(self.stack)) - 1',
                   'forall(lambda k: implies(0 <= k and k < len(self.stack), self.stack[k] is old(self.stack[k])), trigger=lambda k: self.stack[k])',
                   'len(self.stack[len(self.stack) - 1].nodes) == old(len(self.stack[len(self.stack) - 2].nodes)) + 1'],
          lists=['self.stack', 'self.stack[len(self.stack) - 2].nodes'], props=['C02', 'C01'])
@@ -91,7 +97,12 @@ contract('parso.parser.BaseParser.convert_leaf',
          returns='ref:Leaf', trusted=True, ensures=LEAF_OF_TOKEN, lists=[],
          note='dynamic dispatch: the override Parser.convert_leaf is verified against the same postcondition')
 contract('parso.parser.BaseParser.error_recovery#dispatch', params={'self': 'ref:BaseParser', 'token': 'ref:PythonToken'},
-         trusted=True, requires=[], ensures=['self.stack is not None', 'len(self.stack) >= 1', STACK_WF],
+         trusted=True,
+         # what _add_token proves at the dispatch site (the preconditions both implementations share)
+         requires=['token is not None', 'token.type is not None', 'token.type.value is not None',
+                   'self._pgen_grammar is not None', 'self.stack is not None', 'len(self.stack) >= 1', STACK_WF,
+                   TABLES_WF, PUSHES_WF, DISJOINT, ROOT_OPEN, NODES_NN, ARCS_WF],
+         ensures=['self.stack is not None', 'len(self.stack) >= 1', STACK_WF, NODES_NN],
          raises=['ParserSyntaxError', 'NotImplementedError', 'InternalParseError'], modifies=['dfa', 'parent', 'stack'], lists=None,
          raises_ensures={'ParserSyntaxError': LEAF_IS_TOKEN},
          note='assumed (dynamic dispatch to Parser.error_recovery): re-establishes the stack shape; not verified')
@@ -102,14 +113,14 @@ contract('parso.parser.BaseParser.error_recovery#dispatch', params={'self': 'ref
 contract('parso.parser.BaseParser._add_token', params={'self': 'ref:BaseParser', 'token': 'ref:PythonToken'},
          requires=['token is not None', 'token.type is not None', 'token.type.value is not None',
                    'self._pgen_grammar is not None', 'self.stack is not None', 'len(self.stack) >= 1', STACK_WF,
-                   TABLES_WF, PUSHES_WF, DISJOINT, ROOT_OPEN],
-         ensures=['self.stack is not None', 'len(self.stack) >= 1', STACK_WF],
+                   TABLES_WF, PUSHES_WF, DISJOINT, ROOT_OPEN, NODES_NN, ARCS_WF],
+         ensures=['self.stack is not None', 'len(self.stack) >= 1', STACK_WF, NODES_NN],
          raises=['ParserSyntaxError', 'NotImplementedError', 'InternalParseError'],
          raises_ensures={'ParserSyntaxError': LEAF_IS_TOKEN},
          loops={0: dict(invariant=['stack is self.stack', 'stack is not None', STACK_WF, TABLES_WF, PUSHES_WF, DISJOINT,
-                                   'len(stack) == 0 or ' + ROOT_OPEN],
+                                   'len(stack) == 0 or ' + ROOT_OPEN, NODES_NN, ARCS_WF],
                         decreases='len(self.stack) + 1'),
-                1: dict(invariant=['stack is self.stack', 'stack is not None', 'len(stack) >= 1', STACK_WF, PUSHES_WF,
+                1: dict(invariant=['stack is self.stack', 'stack is not None', 'len(stack) >= 1', STACK_WF, PUSHES_WF, NODES_NN,
                                    'plan is not None and plan.dfa_pushes is not None and stack is not plan.dfa_pushes'],
                         len_stable=True, lists_modified=['stack'])},
          # self.error_recovery(token) is dispatched dynamically: the assumed contract of any overrider
@@ -136,20 +147,69 @@ contract('parso.parser.BaseParser.error_recovery', params={'self': 'ref:BasePars
 # The error leaf of a strict-mode syntax error is the token that had no transition (C07).  Assumed of the dynamic
 # dispatch target, proved of both implementations and carried through _add_token.
 TOP = 'self.stack[len(self.stack) - 1]'
+# get_last_leaf is proved (contracts/tree_nav.py, under the tree theory) to return a leaf, never None; the parser only
+# needs that consequence, so its call sites use this theory-free restatement
+contract('parso.tree.NodeOrLeaf.get_last_leaf#nonnull', params={'self': 'ref:NodeOrLeaf'}, returns='ref:Leaf', trusted=True,
+         requires=['self is not None'], ensures=['result is not None'], lists=[],
+         note='restates the verified contract parso.tree.NodeOrLeaf.get_last_leaf without its ghost theory')
+LAST_LEAF_NN = {'parso.tree.NodeOrLeaf.get_last_leaf': 'parso.tree.NodeOrLeaf.get_last_leaf#nonnull'}
 contract('parso.python.parser.Parser.error_recovery#strict', params={'self': 'ref:Parser', 'token': 'ref:PythonToken'},
          requires=['not self._error_recovery', 'token is not None', 'token.type is not None', 'token.type.value is not None',
                    'self._pgen_grammar is not None', 'self.stack is not None', 'len(self.stack) >= 1', STACK_WF,
-                   TABLES_WF, PUSHES_WF, DISJOINT, ROOT_OPEN,
-                   'forall(lambda k: implies(0 <= k and k < len(%s.nodes), %s.nodes[k] is not None))' % (TOP, TOP),
+                   TABLES_WF, PUSHES_WF, DISJOINT, ROOT_OPEN, NODES_NN, ARCS_WF,
                    # assumed of the caller (engine + tokenizer): a DEDENT never arrives while the top entry is empty,
                    # and the root entry belongs to the start rule
                    'len(%s.nodes) >= 1 or token.type is not DEDENT' % TOP,
                    'self.stack[0].dfa.from_rule == self._start_nonterminal'],
-         ensures=['self.stack is not None', 'len(self.stack) >= 1', STACK_WF,
+         ensures=['self.stack is not None', 'len(self.stack) >= 1', STACK_WF, NODES_NN,
                   # strict mode returns normally only through the missing-final-newline exemption shared with
                   # recovery mode
                   'self._start_nonterminal == "file_input"', 'old(%s.dfa.from_rule) == "simple_stmt"' % TOP],
          raises=['ParserSyntaxError', 'NotImplementedError', 'InternalParseError'],
          raises_ensures={'ParserSyntaxError': LEAF_IS_TOKEN},
-         modifies=['dfa', 'parent', 'stack'], theories=['tree'], globals_={'DEDENT': 'ref:PythonTokenTypes'},
+         modifies=['dfa', 'parent', 'stack'], call_keys=LAST_LEAF_NN, globals_={'DEDENT': 'ref:PythonTokenTypes'},
          props=['C07'])
+
+# ---- C02: the recovery path.  Parser.error_recovery (recovery mode) and _stack_removal against the contract that
+# _add_token assumes of the dispatch target: no IndexError / AttributeError / KeyError / NameError escapes and the stack
+# keeps its shape.
+contract('parso.parser.StackNode.nonterminal', kind='property', params={'self': 'ref:StackNode'}, returns='str',
+         requires=['self is not None', 'self.dfa is not None'], ensures=['result == self.dfa.from_rule'], props=['C02'])
+
+contract('parso.python.parser.Parser._stack_removal', params={'self': 'ref:Parser', 'start_index': 'int'}, returns='bool',
+         requires=['self.stack is not None', '1 <= start_index', 'start_index <= len(self.stack)', STACK_WF, NODES_NN],
+         ensures=['len(self.stack) == start_index',
+                  'forall(lambda k: implies(0 <= k and k < start_index, self.stack[k] is old(self.stack[k])), trigger=lambda k: self.stack[k])',
+                  STACK_WF, NODES_NN,
+                  # the removed entries' nodes are not dropped: when there were any, exactly one (error) node is
+                  # added to the entry that stays on top; otherwise nothing is added
+                  'len(self.stack[start_index - 1].nodes) == old(len(self.stack[start_index - 1].nodes)) + ite(result, 1, 0)',
+                  'implies(result, isinstance(self.stack[start_index - 1].nodes[len(self.stack[start_index - 1].nodes) - 1], tree.PythonErrorNode))'],
+         modifies=['parent', 'children'], lists=['self.stack', 'self.stack[start_index - 1].nodes'], props=['C02'])
+
+contract('parso.python.parser.Parser.error_recovery.current_suite', closure_of='parso.python.parser.Parser.error_recovery',
+         params={'stack': 'list:ref:StackNode'}, returns='int',
+         requires=['stack is not None', 'len(stack) >= 1',
+                   'forall(lambda k: implies(0 <= k and k < len(stack), stack[k] is not None and stack[k].dfa is not None '
+                   'and stack[k].nodes is not None), trigger=lambda k: stack[k])'],
+         ensures=['0 <= result', 'result < len(stack)'],
+         loops={0: dict(invariant=['implies(_i > 0, until_index == len(stack) - _i)'])}, props=['C02'])
+
+contract('parso.python.parser.Parser.error_recovery#recover', params={'self': 'ref:Parser', 'token': 'ref:PythonToken'},
+         requires=['self._error_recovery', 'self._start_nonterminal == "file_input"',
+                   'token is not None', 'token.type is not None', 'token.type.value is not None',
+                   'self._pgen_grammar is not None', 'self.stack is not None', 'len(self.stack) >= 1', STACK_WF,
+                   TABLES_WF, PUSHES_WF, DISJOINT, ROOT_OPEN, NODES_NN, ARCS_WF,
+                   'self._omit_dedent_list is not None',
+                   # the list of ints is none of the lists of objects (separate Python types)
+                   'self._omit_dedent_list is not self.stack',
+                   'forall(lambda k: implies(0 <= k and k < len(self.stack), self.stack[k].nodes is not self._omit_dedent_list), '
+                   'trigger=lambda k: self.stack[k])',
+                   'len(%s.nodes) >= 1 or token.type is not DEDENT' % TOP,
+                   'self.stack[0].dfa.from_rule == self._start_nonterminal'],
+         ensures=['self.stack is not None', 'len(self.stack) >= 1', STACK_WF, NODES_NN],
+         raises=['ParserSyntaxError', 'NotImplementedError', 'InternalParseError'],
+         raises_ensures={'ParserSyntaxError': LEAF_IS_TOKEN},
+         modifies=['dfa', 'parent', 'stack'], call_keys=LAST_LEAF_NN,
+         globals_={'DEDENT': 'ref:PythonTokenTypes', 'INDENT': 'ref:PythonTokenTypes'},
+         props=['C02'])
